@@ -31,6 +31,11 @@ CHECKS = {
             "2-3 threads each issue one specification change; a scheduler parks them at the three hook points of every update and executes all 20 orderings (2 threads) or all 1680 / a sample (3 threads); final filtering must equal exactly one submitted spec and log::max_level must admit it. Exhaustive at hook granularity for each generated spec set, search over spec sets.",
             "interleavings below the granularity of the three schedule points are not controlled; blocked threads (lock) are detected by a 10 ms timeout which only changes which interleaving is explored",
             "DESIGN.md 4/C12"),
+    "C16": ("exploration",
+            "model-based histories with a listing oracle from the reference name grammar (proptest), path round trip for FileSpec::try_from executed with a per-case cwd",
+            "After logger start and after every operation of generated multi-run histories, existing_log_files(selector) is compared (as a set of existing paths) with the directory snapshot filtered by the reference family predicate and the selector; every directory entry must parse with exactly the configured name parts, the [starttime] part must equal the virtual start time, the symlink must point to the current file; generated paths go through FileSpec::try_from -> as_pathbuf and a real logger that must write into exactly that file. Search, not proof.",
+            "trusts the reference name grammar; files of earlier starts with another [starttime] count as other families; KF-C07-1 tolerated by exact signature",
+            "DESIGN.md 4/C16"),
     "C17": ("exploration",
             "round-trip and differential testing against a reference parser (proptest grammar + mutation + arbitrary Unicode)",
             "Round trips (Display, TOML, specfile) of generated specs compared on the full decision grid; generated/mutated/arbitrary strings parsed by flexi_logger and by a reference parser written from the documented grammar: Err iff malformed, salvaged spec decides like the well-formed parts. Search (30k quick / 1.5M thorough), no proof.",
